@@ -7,6 +7,7 @@ import (
 	"flag"
 	"fmt"
 	"math/rand"
+	"os"
 	"path/filepath"
 	"sort"
 	"strings"
@@ -267,6 +268,7 @@ func cmdParseObs(args []string) {
 	maxfrag := fs.Int("maxfrag", 14, "fragments per text")
 	nfile := fs.Int("nfile", 400, "whole / cut / edited rendered grammar texts")
 	klen := fs.Int("klen", 3, "token-kind scenarios up to this length")
+	single := fs.String("single", "", "observe this one file only (replay)")
 	fs.Parse(args)
 	r := rand.New(rand.NewSource(p.seed*19 + 5))
 	obs := make([][]parseObs, *shards)
@@ -300,6 +302,14 @@ func cmdParseObs(args []string) {
 		}
 		obs[n%*shards] = append(obs[n%*shards], o)
 		n++
+	}
+	if *single != "" {
+		b, err := os.ReadFile(*single)
+		if err != nil {
+			die("%v", err)
+		}
+		add(string(b), "single")
+		*ntexts, *klen, *nfile = 0, 0, 0
 	}
 	for i := 0; i < *ntexts; i++ {
 		k := 1 + r.Intn(*maxfrag)
